@@ -314,6 +314,16 @@ class ControlledGate(ComposedGate):
         See :class:`~bqskit.ir.gate.Gate` for more info.
         """
         grads = self.gate.get_grad(params)
+        return self._control_grads(grads)
+
+    def _control_grads(
+        self,
+        grads: npt.NDArray[np.complex128],
+    ) -> npt.NDArray[np.complex128]:
+        """Apply the control projection to a (num_params, N, N) gradient."""
+        if self.num_params == 0:
+            # constant gates may return an empty 1-d array
+            return np.zeros((0, self.dim, self.dim), dtype=np.complex128)
         return np.kron(self.ctrl, grads).astype(np.complex128)
 
     def get_unitary_and_grad(
@@ -327,7 +337,7 @@ class ControlledGate(ComposedGate):
         """
         U, grads = self.gate.get_unitary_and_grad(params)
         ctrl_U = np.kron(self.ctrl, U) + self.ihalf
-        ctl_grads = np.kron(self.ctrl, grads).astype(np.complex128)
+        ctl_grads = self._control_grads(grads)
         return UnitaryMatrix(ctrl_U, self.radixes), ctl_grads
 
     def __eq__(self, other: object) -> bool:
